@@ -473,7 +473,7 @@ PROPS["C18"] = dict(
     technique="Lean 4 proof (simulation congruence for alpha-beta/quiescence; C05/C07/C08 for seed independence and fork isolation) + differential repetition / seeds / concurrency / gated isolation",
     rule="16 det scripts x 4 engine kinds (10 searches each) + 12 isolation scenarios (gate 30-330, hash 0/1) + 6 noise scripts; non-trivial = distinct script",
     partial=["noise reproducibility (no noise in the model), concurrent use of several engines, and the searches of the historical wirings: streams and race detector only",
-             "hash seed with a FRESH non-empty table: seed_independent* is about table-free searches; with a table only the score follows (C11.transparent on both sides + table-free seed independence) and that composition is not "
+             "hash seed with a table on each side: seed_independent_with_tables gives equal root scores (C11.transparent_on on both sides + table-free seed independence; its hypotheses are the conjunction of C11's region hypotheses and seed_independent's, each instantiated on chess separately, not jointly); node counts / PVs across seeds with a table are not claimed (slot collisions differ)"
              "stated as a theorem; node counts / PVs across seeds with a table are not claimed (slot collisions differ)",
              "repeatable / repeatable_after / analyze_pure restate that the model is a pure function: the content is in function_of_game*, seed_independent*, state_irrelevant, analysis_isolated, analysis_sees_the_game"],
     modelled=["engine/engine.go Analyze (fork), board.Fork, search (pure model)"],
